@@ -279,8 +279,11 @@ static int host_port_parse(const char *proto, const char *addr_s,
 
     const char *port_start = port_sep+PORT_SEP_LEN;
 
+    if (!isdigit((unsigned char)port_start[0]))
+	goto err_inval;
+
     char *end = NULL;
-    int lport = strtol(port_start, &end, 10);
+    long lport = strtol(port_start, &end, 10);
 
     if (end[0] != '\0')
 	goto err_inval;
